@@ -759,13 +759,34 @@ func (env *LEnv) New(typ *LVal, args *LVal) *LVal {
 	if args.Type != LSExpr {
 		return env.Errorf("second argument is not a list: %v", GetType(args))
 	}
-	tname := typ.Cells[0].Cells[0]
-	ctor := typ.Cells[0].Cells[1]
+	tname, ctor, ok := TypedefParts(typ)
+	if !ok {
+		return env.Errorf("first argument is not a well-formed typedef")
+	}
 	v := env.FunCall(ctor, args)
 	if v.Type == LError {
 		return v
 	}
 	return env.TaggedValue(tname, v)
+}
+
+// TypedefParts returns the type name and constructor held by a typedef, or
+// ok=false when typ is not shaped like one.  A tagged value only CLAIMS to be
+// a typedef through its type name; an embedder can build one with any user
+// data (LEnv.TaggedValue), so readers must not index into it blindly.
+func TypedefParts(typ *LVal) (name, ctor *LVal, ok bool) {
+	if typ == nil || typ.Type != LTaggedVal || len(typ.Cells) != 1 {
+		return nil, nil, false
+	}
+	data := typ.Cells[0]
+	if data == nil || data.Type != LSExpr || len(data.Cells) != 2 {
+		return nil, nil, false
+	}
+	name, ctor = data.Cells[0], data.Cells[1]
+	if name == nil || name.Type != LSymbol || ctor == nil || ctor.Type != LFun {
+		return nil, nil, false
+	}
+	return name, ctor, true
 }
 
 // Lambda returns a new Lambda with fun.Env and fun.Package set automatically.
